@@ -307,6 +307,19 @@ func tomaGen(r *RNG, id string, windows bool) *Case {
 
 func execToma(r *RNG, c *Case) {
 	txt, _ := caseSam(c)
+	if isCLI(c) {
+		args := []string{"sam", "toMultiAlign", "-s", "{dir}/a.sam", "-t", c.Get("threads")}
+		for _, kv := range [][2]string{{"wrap", "--wrap"}, {"start", "--start"}, {"end", "--end"}} {
+			if atoi(c.Get(kv[0])) != -1 {
+				args = append(args, kv[1], c.Get(kv[0]))
+			}
+		}
+		if c.Get("pad") == "1" {
+			args = append(args, "--pad")
+		}
+		c.Set("go", goField(viaCLI(map[string]string{"a.sam": txt}, "", args, nil)))
+		return
+	}
 	res := safeRun(30*time.Second, func() (string, error) {
 		var out bytes.Buffer
 		err := sam.ToMultiAlign(strings.NewReader(txt), &out, atoi(c.Get("wrap")), atoi(c.Get("start")), atoi(c.Get("end")), c.Get("pad") == "1", atoi(c.Get("threads")))
@@ -334,6 +347,7 @@ func topaGen(r *RNG, id string, windows bool) *Case {
 	if strings.Contains(c.Get("recs"), "I") {
 		c.Tag("insertions")
 	}
+	maybeCLI(r, c, 6)
 	return c
 }
 
@@ -345,6 +359,32 @@ func execTopa(r *RNG, c *Case) {
 	dir := filepath.Join(opts.tmp, fmt.Sprintf("topa-%d-%d", os.Getpid(), tmpCounter))
 	defer os.RemoveAll(dir)
 	refTxt := renderFasta([]string{c.Get("rname") + " reference"}, []string{c.Get("ref")}, randLayout(r))
+	if isCLI(c) {
+		args := []string{"sam", "toPairAlign", "-s", "{dir}/a.sam", "-r", "{dir}/r.fa", "-o", "{dir}/out", "-t", c.Get("threads")}
+		for _, kv := range [][2]string{{"wrap", "--wrap"}, {"start", "--start"}, {"end", "--end"}} {
+			if atoi(c.Get(kv[0])) != -1 {
+				args = append(args, kv[1], c.Get(kv[0]))
+			}
+		}
+		if c.Get("omitref") == "1" {
+			args = append(args, "--omit-reference")
+		}
+		if c.Get("omitins") == "1" {
+			args = append(args, "--skip-insertions")
+		}
+		c.Set("go", goField(viaCLI(map[string]string{"a.sam": txt, "r.fa": refTxt}, "", args, func(d string) (string, error) {
+			var parts []string
+			for _, n := range blockNames(recs) {
+				b, err := os.ReadFile(filepath.Join(d, "out", n+".fasta"))
+				if err != nil {
+					return "", err
+				}
+				parts = append(parts, n+"\n"+string(b))
+			}
+			return strings.Join(parts, sepFS), nil
+		})))
+		return
+	}
 	res := safeRun(30*time.Second, func() (string, error) {
 		err := sam.ToPairAlign(strings.NewReader(txt), strings.NewReader(refTxt), dir, atoi(c.Get("wrap")), atoi(c.Get("start")), atoi(c.Get("end")),
 			c.Get("omitref") == "1", c.Get("omitins") == "1", atoi(c.Get("threads")))
